@@ -446,6 +446,32 @@ def enumerations(tier, shard, nshards):
 
     yield ("read slices that lack the first or last bases of the path slice (alignment begins or ends with a deletion)", flanks(), True)
 
+    def blocks():
+        # a block substitution (30 x A replaced by 30 x C): 30 mismatch columns cost 120, any pair of long gaps costs more under
+        # the 4/6/2 penalties; and a tandem duplication: two records of one read over the SAME path interval, each with its own
+        # read interval
+        rnd = random.Random(33)
+        left = "".join(rnd.choice("ACGT") for _ in range(80))
+        right = "".join(rnd.choice("ACGT") for _ in range(90))
+        node = left + "A" * 30 + right
+        gfa = "S\tz1\t%s\tLN:i:%d\tSN:Z:chr1\tSO:i:0\tSR:i:0\n" % (node, len(node))
+        read = left + "C" * 30 + right
+        n = len(node)
+        gaf = ["blk\t%d\t0\t%d\t+\t>z1\t%d\t0\t%d\t%d\t%d\t60\tcg:Z:80=30X90=" % (n, n, n, n, n - 30, n),
+               "blkr\t%d\t0\t%d\t+\t<z1\t%d\t0\t%d\t%d\t%d\t60\tcg:Z:90=30X80=" % (n, n, n, n, n - 30, n)]
+        fa = ">blk\n%s\n>blkr\n%s\n" % (read, models.revcomp(read))
+        copy1 = node[20:70]
+        copy2 = copy1[:25] + ("G" if copy1[25] != "G" else "T") + copy1[26:]
+        dup = "TT" + copy1 + copy2 + "AA"
+        gaf += ["dup\t%d\t2\t52\t+\t>z1\t%d\t20\t70\t50\t50\t60\tcg:Z:50=" % (len(dup), n),
+                "dup\t%d\t52\t102\t+\t>z1\t%d\t20\t70\t49\t50\t60\tcg:Z:25=1X24=" % (len(dup), n)]
+        fa += ">dup\n%s\n" % dup
+        for batch in (10, 1):
+            yield {"gfa": gfa, "gaf": gaf, "fasta": fa, "cores": 1, "batch": batch, "kind": "sim"}
+
+    yield ("a 30-base block substitution (forward and reverse) and a tandem duplication (one read, one path interval, two read intervals)",
+           blocks(), True)
+
     yield ("reads of 16 000 and 20 000 bases with six indels of 100-200 bp", verylong(), True)
 
     yield ("60000 / 60001 read-base boundary of the pass-through rule (simulated and real processes) + one real-process reverse-walk case", gen(), True)
